@@ -152,6 +152,22 @@ def _range_len_to_enumerate(st):
             return None
     if v == i or v == X:
         return None
+    # nor changed in place (its length or elements) while the loop runs
+    for n in ast.walk(st):
+        if isinstance(n, ast.Call) and isinstance(n.func, ast.Attribute) \
+                and isinstance(n.func.value, ast.Name) and n.func.value.id == X \
+                and n.func.attr in ("append", "extend", "insert", "pop", "remove", "clear",
+                                    "sort", "reverse"):
+            return None
+        tg = n.targets if isinstance(n, ast.Assign) else (
+            [n.target] if isinstance(n, ast.AugAssign) else (
+                n.targets if isinstance(n, ast.Delete) else []))
+        for t in tg:
+            if isinstance(t, ast.Subscript) and isinstance(t.value, ast.Name) \
+                    and t.value.id == X:
+                return None
+            if isinstance(t, ast.Name) and t.id == X and isinstance(n, ast.AugAssign):
+                return None
     tgt = ast.Tuple(elts=[ast.Name(id=i, ctx=ast.Store()), ast.Name(id=v, ctx=ast.Store())],
                     ctx=ast.Store())
     it = ast.Call(func=ast.Name(id="enumerate", ctx=ast.Load()),
